@@ -1,7 +1,9 @@
+mod c0415;
 mod c05;
 mod c06;
 mod c08;
 mod c12;
+mod c17;
 mod child;
 mod doc;
 mod exec;
@@ -137,7 +139,7 @@ fn main() {
         child::child_main(&args[2]);
     }
     let noaslr = ensure_no_aslr();
-    let checks: Vec<&dyn framework::Check> = vec![&c05::C05, &c06::C06, &c08::C08, &c12::C12];
+    let checks: Vec<&dyn framework::Check> = vec![&c0415::C04, &c05::C05, &c06::C06, &c08::C08, &c12::C12, &c0415::C15, &c17::C17];
     let flag = |name: &str| -> Option<String> { args.iter().position(|a| a == name).and_then(|i| args.get(i + 1).cloned()) };
     let verif = std::path::PathBuf::from(flag("--verif").unwrap_or_else(|| "/verif".into()));
     match args.get(1).map(|s| s.as_str()) {
